@@ -101,6 +101,7 @@ type locSys struct {
 	store   core.Storage
 	fault   *faultStore
 	cleanup func()
+	kept    map[string]map[string]interface{}
 	locs    map[string]*core.Location
 	prov    *core.SimpleLocationProvider
 	maxf    int
@@ -349,6 +350,19 @@ func (s *locSys) step(op map[string]interface{}) map[string]interface{} {
 		m, ok := asMap(op["fact"])
 		if !ok {
 			return errS("input")
+		}
+		// a caller may keep its map and hand the very same object in again later (a heartbeat that refreshes a ttl):
+		// "keepAs" remembers the Go map of this op, "reuse" passes a remembered one instead of a fresh decoding of "fact"
+		if name, _ := op["reuse"].(string); name != "" {
+			if kept, have := s.kept[name]; have {
+				m = kept
+			}
+		}
+		if name, _ := op["keepAs"].(string); name != "" {
+			if s.kept == nil {
+				s.kept = map[string]map[string]interface{}{}
+			}
+			s.kept[name] = m
 		}
 		got, err := loc.AddFact(ctx, id, core.Map(m))
 		if err != nil {
